@@ -215,6 +215,10 @@ func (g *grpcClient) WriteRequestHeader(_ StreamType, header http.Header) {
 	header["Accept-Encoding"] = []string{compressionIdentity}
 	if g.CompressionName != "" && g.CompressionName != compressionIdentity {
 		header[grpcHeaderCompression] = []string{g.CompressionName}
+	} else {
+		// Don't let an encoding named by an earlier use of this header map
+		// (a reused or forwarded Request) describe messages we won't compress.
+		delete(header, grpcHeaderCompression)
 	}
 	if acceptCompression := g.CompressionPools.CommaSeparatedNames(); acceptCompression != "" {
 		header[grpcHeaderAcceptCompression] = []string{acceptCompression}
